@@ -1644,6 +1644,7 @@ def _warnings_warn(B, I, message=None, category=None, stacklevel=1, source=None,
 
 
 _EXT_FUNCS = {
+    "sys.getrecursionlimit": lambda B, I: 1000,       # CPython's default; the evaluator's own call-depth budget is a separate matter
     "warnings.warn": _warnings_warn,
     "inspect.signature": _inspect_signature,
     "uuid.uuid4": _uuid4,
